@@ -117,7 +117,8 @@ def run(ck):
                "granted QoS, windows 1,2,3,5,7,10, one subscriber cut with exactly 2..window messages unacknowledged (1 for window 1) and resumed: per "
                "(publisher, QoS, delivery QoS) sequence numbers increase (order), retransmitted ids keep their original order and include everything "
                "unacknowledged (resend_order), no new PUBLISH before the last retransmission (resend_first), no QoS 2 message offered twice as new; "
-               "gated resume with a PUBREL and PUBLISHes in flight, a free window slot and a backlog while Restore is held back; packet ids wrapping "
+               "gated resume with a PUBREL and PUBLISHes in flight, a free window slot and a backlog while Restore is held back; the same with more unacknowledged "
+               "deliveries than the resuming connection has window slots (window lowered 3->1, 4->2, 5->3 while the subscriber is away; a PUBACK sent twice at window 2 and 3); packet ids wrapping "
                "65535->1 between unacknowledged deliveries; a takeover while the old connection's dequeuer holds a dequeued, not yet stored message with two more queued "
                "(arrival order at the newcomer, resend order after a further cut); a publisher cut and resuming with unacknowledged QoS 1/2 publishes (publisher_resume); a "
                "backend that is slow with a publisher's first message (log_publish_serial, order); a backlogged subscriber; back-pressure bursts "
